@@ -366,7 +366,7 @@ func forEachSQL(thorough bool, bounds map[string]interface{}, emit emitFn) {
 
 	// ---- F5 tail: group by x fill x having x order by x limit x explain x clause order x suffix ----
 	groupBys := []string{"", " group by host", " group by host,'ip.x'", " group by time(1m)", " group by time()", " group by host,time(100s),'/data'",
-		" group by time(1M),host", " group by 'ip.x',host,time()"}
+		" group by time(1M),host", " group by 'ip.x',host,time()", " group by time(12M)", " group by time(360d),host"}
 	if thorough {
 		groupBys = append(groupBys, " group by time(1y)", " group by time(1w),time(2d)", " group by time(-1m)", " group by time(0s)", " group by host,host", " group by time(90s),`k 3`", " group by time(3h)")
 	}
